@@ -655,7 +655,27 @@ def state(ctx: Ctx, py: PyProgram) -> None:
                         ctx.violation("C10.5/transformer-state", key_of(ASM_PY, f"AsmTransformer.{name}", f"self.{t.attr}"), f"transformer method {name} stores self.{t.attr}: parse results would depend on earlier statements", f"{ASM_PY}:{s.lineno}")
             if isinstance(s, ast.Global):
                 ctx.violation("C10.5/transformer-state", key_of(ASM_PY, f"AsmTransformer.{name}", "global"), f"transformer method {name} declares globals {s.names}", f"{ASM_PY}:{s.lineno}")
-    ctx.instance("C10.5/state", "per-assembly fields reset, shared cache single guarded writer fed from OPCODES only, templates never written, determinism lint", n, 8)
+    # (e) nothing that holds per-assembly objects is memoised across assemblies: the passes resolve symbols by writing into the operand
+    #     objects of the program AST, so a remembered AST (or instruction) carries one assembly's values into the next
+    scalar = {"int", "str", "bytes", "bool", "float", "None", "Optional[int]", "Optional[str]"}
+    for rel in (SC_ASM_PY, ASM_PY):
+        m = py.module(rel)
+        for fn in [x for x in ast.walk(m.tree) if isinstance(x, (ast.FunctionDef, ast.AsyncFunctionDef))]:
+            n += 1
+            for d in fn.decorator_list:
+                dd = d.func if isinstance(d, ast.Call) else d
+                nm = dd.id if isinstance(dd, ast.Name) else getattr(dd, "attr", "")
+                if nm in ("lru_cache", "cache", "cached_property", "memoize"):
+                    ann = unparse(fn.returns) if fn.returns is not None else "?"
+                    if ann in scalar:
+                        continue
+                    calls = [c for c in ast.walk(m.tree) if isinstance(c, ast.Call) and ((isinstance(c.func, ast.Name) and c.func.id == fn.name) or (isinstance(c.func, ast.Attribute) and c.func.attr == fn.name))]
+                    wrapped = [w.args[0] for w in ast.walk(m.tree) if isinstance(w, ast.Call) and unparse(w.func) in ("copy.deepcopy", "deepcopy") and w.args]
+                    if calls and all(any(c is w for w in wrapped) for c in calls):
+                        continue    # every use takes a private deep copy
+                    ctx.violation("C10.5/memo", key_of(rel, fn.name, f"@{nm}"),
+                                  f"{fn.name} is memoised with @{nm} and returns `{ann}`: a parsed program / instruction object remembered across assemble() calls is the object pass two has already written resolved values into, so assembling the same text again does not start from the text", f"{rel}:{fn.lineno}")
+    ctx.instance("C10.5/state", "per-assembly fields reset, shared cache single guarded writer fed from OPCODES only, templates never written, determinism lint, no memoised AST", n, 8)
     ctx.instance("C10.5/transformer-state", "AsmTransformer methods that store no instance/global state", k, 200)
     ctx.functions_analysed += k + 8
 
